@@ -1,13 +1,16 @@
 """Scenario generator for harness/mbq.cpp (C08 mailboxes, C09 message queues).
 
 A scenario = {"family", "plat": {"nh", "links": [[bw, lat], ...]}, "mb": "PPB" (one letter per mailbox), "nq", "scripts": [[op, ...], ...]}
+A batch (one process, one platform) = list of scenarios run one after the other in simulated time (see the harness).
 Ops (fields separated by ':'):
   pointer mailboxes  put:m:size  putT:m:size (put with a timeout that never fires)  putw:m:size[:rate] (wait() on an unstarted comm)
                      puta:m:size[:rate]  putd:m:size (put_init+detach)  putf:m:size:tag:fk:want (Comm::send with match data/filter)
                      get:m  getT:m  getw:m  geta:m (slot)  getp:m (get_async() + get_payload)  getf:m:tag:fk:want (Comm::recv)
   buffer mailboxes   bput:m:n:size  bputs:m:n:size  bputa:m:n:size  bputd:m:n:size   bget:m:cap  bgets:m:cap  bgeta:m:cap
   message queues     qput:q  qputt:q:timeout_us  qputa:q  qputd:q   qget:q  qgett:q:timeout_us  qgeta:q  qgetp:q  qgetw:q
+                     qgets:q / qgetts:q:timeout_us = the bodies of MessageQueue::get<T>() / get<T>(timeout) with the result slot on the heap
   handles            wait:k[:timeout_us] (on timeout: cancel, as wait_for_or_cancel)  test:k  wany[:timeout_us]  cancel:k
+                     waitk:k:timeout_us (message-queue handles: plain wait_for, the handle stays usable after a timeout)
   others             setr:m:0|1 (set_receiver(self) / set_receiver(nullptr))  sleep:us  yield
 The generator stays inside the API contract: a mailbox is used either with pointer payloads or with buffer copies (both sides install
 the same copy callback), cancel / timeouts are not mixed with permanent receivers, buffers outlive their communications (the harness
@@ -15,6 +18,9 @@ never frees), every started handle is waited for in the actor's epilogue.
 """
 
 SIZES = [0, 0, 1, 8, 1000, 1000, 65536, 10 ** 6, 10 ** 6, 10 ** 9]
+# every transfer of a scenario is over after << 1e6 simulated seconds (slowest link 1e5 B/s: sizes <= 1e6 there, see platform();
+# rate-limited sends <= 1e6 bytes): the API timeouts of 1e6 s used by putT/getT fire only when nothing else can happen, and a
+# scenario is over long before the next one of its batch starts (GAP = 1e7 s in the harness)
 SLEEPS = [0, 1, 1, 10, 100, 1000, 1000, 10000, 100000]
 BW = [1e5, 1e6, 1e7, 1e8, 1.25e9]
 LAT = [0, 1e-6, 1e-4, 1e-3, 1e-2]
@@ -22,16 +28,39 @@ BUF_N = [0, 1, 11, 12, 13, 64, 64, 1000, 70000]
 BUF_CAP = [0, 5, 12, 13, 64, 64, 1000, 100000]
 
 
-def to_input(sc):
-    out = ["P %d %s" % (sc["plat"]["nh"], " ".join("%r,%r" % (bw, lat) for bw, lat in sc["plat"]["links"])),
-           "M " + " ".join(sc["mb"]) if sc["mb"] else "M", "Q %d" % sc["nq"]]
-    for s in sc["scripts"]:
-        out.append("A " + " ".join(s))
+def to_input(plat, scs):
+    """stdin of the harness for a batch of scenarios run on one platform"""
+    out = ["P %d %s" % (plat["nh"], " ".join("%r,%r" % (bw, lat) for bw, lat in plat["links"]))]
+    for sc in scs:
+        out += ["N", "M " + " ".join(sc["mb"]) if sc["mb"] else "M", "Q %d" % sc["nq"]]
+        for s in sc["scripts"]:
+            out.append("A " + " ".join(s))
     return "\n".join(out) + "\n"
 
 
 def platform(rng):
     return {"nh": rng.randint(2, 6), "links": [[rng.choice(BW), rng.choice(LAT)] for _ in range(rng.randint(1, 4))]}
+
+
+def _slow(plat):
+    return min(bw for bw, _ in plat["links"]) < 1e6
+
+
+def tame(sc, plat=None):
+    """keep simulated durations far below the 1e6 s API timeouts: no 1e9-byte message over a 1e5 B/s link or under a rate limit
+    (plat = the platform of the batch the scenario is run in)"""
+    slow = _slow(plat or sc["plat"])
+    for ops in sc["scripts"]:
+        for k, o in enumerate(ops):
+            t = o.split(":")
+            if t[0] in ("put", "putT", "putw", "puta", "putd", "putf") and int(t[2]) > 10 ** 6:
+                if slow or (t[0] in ("putw", "puta") and len(t) > 3):
+                    t[2] = str(10 ** 6)
+                    ops[k] = ":".join(t)
+            elif t[0] in ("bput", "bputs", "bputa", "bputd") and int(t[3]) > 10 ** 6 and slow:
+                t[3] = str(10 ** 6)
+                ops[k] = ":".join(t)
+    return sc
 
 
 def _noise(rng, ops, handles=True, cancel=False, timeouts=False):
@@ -200,42 +229,46 @@ def random_mix(rng, perm=False):
     return {"family": "permanent-hostile" if perm else "random", "plat": platform(rng), "mb": mb, "nq": 0, "scripts": scripts}
 
 
-def gen_c08(rng):
+def gen_c08(rng, plat=None):
     r = rng.random()
     if r < 0.30:
-        return pipeline(rng)
-    if r < 0.48:
-        return pipeline(rng, perm=True)
-    if r < 0.63:
-        return buffers(rng)
+        return tame(pipeline(rng), plat)
+    if r < 0.46:
+        return tame(pipeline(rng, perm=True), plat)
+    if r < 0.61:
+        return tame(buffers(rng), plat)
     if r < 0.78:
-        return filters(rng)
-    if r < 0.96:
-        return random_mix(rng)
-    return random_mix(rng, perm=True)
+        return tame(filters(rng), plat)
+    if r < 0.95:
+        return tame(random_mix(rng), plat)
+    return tame(random_mix(rng, perm=True), plat)
 
 
 # ------------------------------------------------------------------------------------------------ message queues
-def qpipeline(rng, api_timeouts=False):
+# Blocking receptions: "qget" is the real MessageQueue::get<T>() (result in a local variable of the API). While the known finding
+# C09:payload-rewritten-after-delivery is open, a later wait()/test() of the *sender* on its put handle writes the payload again
+# through that pointer, i.e. into a dead stack frame: families in which senders keep put handles use "qgets" (same calls, result
+# slot on the heap, watched until the end) so that the defect is observed instead of corrupting the process; the family whose
+# senders only use detached puts (no second delivery possible) uses the real get<T>().
+def qpipeline(rng, family="queue-pipeline"):
+    """producers -> consumers on 1..3 queues, as many gets as puts per queue.
+    queue-detached: detached puts only, real get<T>(); queue-timeouts: get(timeout) bodies and wait_for() that keeps the handle"""
     na, prod, cons = _roles(rng)
     nq = rng.randint(1, 3)
     scripts = [[] for _ in range(na)]
     per_q = [0] * nq
+    detached = family == "queue-detached"
+    tmo = family == "queue-timeouts"
     cancel = timeouts = rng.random() < 0.3
-    pk = ["qput", "qputa", "qputa", "qputa", "qputd"]
-    gk = ["qget", "qget", "qgeta", "qgeta", "qgetp"]
+    pk = ["qputd"] if detached else ["qput", "qputa", "qputa", "qputa", "qputd"]
+    gk = ["qget", "qget", "qgeta", "qgeta", "qgetp"] if detached else ["qgets", "qgets", "qgeta", "qgeta", "qgetp"]
     for a in prod:
         ops = scripts[a]
         for _ in range(rng.randint(2, 12)):
             q = rng.randrange(nq)
-            if api_timeouts and rng.random() < 0.2:
-                ops.append("qputt:%d:%d" % (q, rng.choice([0, 1, 100, 10000])))
-            else:
-                ops.append("%s:%d" % (rng.choice(pk), q))
+            ops.append("%s:%d" % (rng.choice(pk), q))
             per_q[q] += 1
             _noise(rng, ops, cancel=cancel, timeouts=timeouts)
-            if rng.random() < 0.1:
-                ops.append("puta:0:%d" % rng.choice(SIZES[:9]))       # some simulated time passes
     todo = []
     for q in range(nq):
         for ci, n in enumerate(_spread(rng, per_q[q], len(cons))):
@@ -243,18 +276,18 @@ def qpipeline(rng, api_timeouts=False):
     rng.shuffle(todo)
     for c, q in todo:
         ops = scripts[c]
-        if api_timeouts and rng.random() < 0.3:
-            ops.append("qgett:%d:%d" % (q, rng.choice([0, 1, 100, 10000])))
+        if tmo and rng.random() < 0.3:
+            ops.append("qgetts:%d:%d" % (q, rng.choice([0, 1, 100, 10000])))
         else:
             ops.append("%s:%d" % (rng.choice(gk), q))
+        if tmo and rng.random() < 0.25:
+            ops.append("waitk:%d:%d" % (rng.randint(0, 5), rng.choice([0, 1, 100, 10000])))
         _noise(rng, ops, cancel=cancel, timeouts=timeouts)
-    nget = sum(1 for s in scripts for o in s if o.startswith("puta:0"))
-    for _ in range(nget):
-        scripts[rng.choice(cons)].append("geta:0")
-    return {"family": "queue-api-timeouts" if api_timeouts else "queue-pipeline", "plat": platform(rng), "mb": "P", "nq": nq, "scripts": scripts}
+    return {"family": family, "plat": platform(rng), "mb": "", "nq": nq, "scripts": scripts}
 
 
 def qrandom(rng):
+    """unstructured scripts: every actor puts and gets (deadlocks are legitimate ends)"""
     na = rng.randint(2, 6)
     nq = rng.randint(1, 3)
     scripts = [[] for _ in range(na)]
@@ -265,15 +298,17 @@ def qrandom(rng):
             if rng.random() < 0.5:
                 ops.append("%s:%d" % (rng.choice(["qputa", "qputa", "qputd", "qput"]), q))
             else:
-                ops.append("%s:%d" % (rng.choice(["qgeta", "qgeta", "qgetp", "qget"]), q))
+                ops.append("%s:%d" % (rng.choice(["qgeta", "qgeta", "qgetp", "qgets"]), q))
             _noise(rng, ops, cancel=True, timeouts=True)
-    return {"family": "queue-random", "plat": platform(rng), "mb": "P", "nq": nq, "scripts": scripts}
+    return {"family": "queue-random", "plat": platform(rng), "mb": "", "nq": nq, "scripts": scripts}
 
 
-def gen_c09(rng):
+def gen_c09(rng, plat=None):
     r = rng.random()
+    if r < 0.30:
+        return qpipeline(rng, "queue-detached")
     if r < 0.55:
         return qpipeline(rng)
-    if r < 0.95:
+    if r < 0.88:
         return qrandom(rng)
-    return qpipeline(rng, api_timeouts=True)
+    return qpipeline(rng, "queue-timeouts")
